@@ -36,17 +36,17 @@ class BCPoint:
         if BC <= 0:
             raise ValueError('Ballistic coefficient must be positive')
 
-        if Mach and V:
+        if Mach is not None and V is not None:
             raise ValueError("You cannot specify both 'Mach' and 'V' at the same time")
 
-        if not Mach and not V:
+        if Mach is None and V is None:
             raise ValueError("One of 'Mach' and 'V' must be specified")
 
         self.BC = BC
-        self.V = PreferredUnits.velocity(V or 0)
-        if V:
+        self.V = PreferredUnits.velocity(0 if V is None else V)
+        if V is not None:
             self.Mach = (self.V >> Velocity.MPS) / self._machC()
-        elif Mach:
+        else:
             self.Mach = Mach
 
     @staticmethod
